@@ -55,6 +55,16 @@ def tlc_jobs(ctx, quick):
                 exp('d1-%s-%s' % (sp, g), sp, 1, g, xs='quick')
             for g in GROUPS:
                 exp('d0-%s-%s' % (sp, g), sp, 0, g, xs='full')
+    # WEIGHTED power spaces (array / constant / below-one component weights): catalogue pairs, every leaf, one rule on
+    # top of the vector-field functionals
+    for sp in fu.SPACES_W:
+        jobs.append(('pairs-' + sp, M, 'MC_FuncMachine_pairs.cfg', fu.fm_env(sp, 0, 'all', 'conj'), 1))
+        exp('d0-' + sp, sp, 0, 'all' if (sp == 'wpowerA' or not quick) else 'vf', xs='quick' if quick else 'full')
+        if sp == 'wpowerA' or not quick:
+            exp('d1-' + sp, sp, 1, 'vf', xs='tiny' if quick else 'quick')
+            jobs.append(('impl-' + sp, 'MC_FuncRulesImpl.tla', 'MC_FuncRulesImpl_Conj.cfg',
+                         fu.fm_env(sp, 1, 'vf', 'conj', xset='quick'), 1))
+            jobs.append(('laws-%s-vf' % sp, M, 'MC_FuncMachine_lawsConj.cfg', fu.fm_env(sp, 0, 'vf', 'conj', xset='tiny'), 1))
     lawspaces = ['rn2', 'discr2', 'power1'] if quick else fu.SPACES_2D
     for sp in lawspaces:
         for g in GROUPS:
@@ -312,8 +322,11 @@ def driver_programs(quick, rnd):
     H = Fraction(1, 2)
     out = []
     spaces = [('rn', 1, 3, [1] * 3), ('rnw', 1, 3, [4] * 3), ('discr', 1, 3, [2] * 3), ('power', 2, 2, [H] * 4),
-              ('pspace', 2, 2, [4, 4, H, H])]
-    for kind, m, n, W in spaces:
+              ('pspace', 2, 2, [4, 4, H, H]),
+              # weighted power spaces (kind, m, n, W, component weights): array weighting, constant weighting
+              ('wpower', 2, 2, [H, H, 2, 2], [1, 4]), ('wpower', 2, 2, [6] * 4, [3, 3])]
+    for spd_ in spaces:
+        kind, m, n, W = spd_[:4]
         N = m * n
         alt = lambda a, b: [a if i % 2 == 0 else b for i in range(N)]
         leaves = [mkf('L1'), mkf('L2'), mkf('L2sq'), mkf('IndBall2'), mkf('IndBallInf'), mkf('Const', 0, 3),
@@ -326,7 +339,7 @@ def driver_programs(quick, rnd):
                        mkf('IndBox', 1, 1)]
         if m == 1:
             leaves += [mkf('Linf'), mkf('IndBall1'), mkf('Quad', 0, 0, v=alt(1, H))]
-        if kind == 'power':
+        if fu.is_vf(kind):
             leaves += [mkf('GroupL1'), mkf('IndGroupBall'), mkf('GroupL1', 1), dict(mkf('GroupL1'), s=[1, 0]),
                        mkf('IndGroupBall', 1), dict(mkf('IndGroupBall'), s=[1, 0])]
         if kind == 'pspace':
@@ -341,6 +354,14 @@ def driver_programs(quick, rnd):
                  lambda g: mkf('AddConst', 0, -2, args=[g]),
                  lambda g: mkf('QuadPert', 0, 1, u=rv(), args=[g]),
                  lambda g: mkf('Bregman', v=rv(), u=rv(), args=[g]),
+                 # FunctionalQuadraticPerturb: {coefficient 0 / > 0} x {linear term absent / explicit zero / nonzero} x
+                 # {constant 0 / != 0}, members the rule above does not reach; Bregman distance with the sub-gradient 0
+                 lambda g: mkf('QuadPert', 0, rnd.choice([(-3, 2), (7, 4)]), args=[g]),
+                 lambda g: mkf('QuadPert', 0, rnd.choice([(-3, 2), (7, 4)]), u=[0] * N, args=[g]),
+                 lambda g: mkf('QuadPert', 0, 0, u=[0] * N, args=[g]),
+                 lambda g: mkf('QuadPert', 0, 0, u=rv(), args=[g]),
+                 lambda g: mkf('QuadPert', (1, 2), rnd.choice([(-3, 2), (7, 4)]), u=rnd.choice([[], [0] * N, rv()]), args=[g]),
+                 lambda g: mkf('Bregman', v=rv(), u=[0] * N, args=[g]),
                  lambda g: mkf('InfConv', args=[g, mkf('L2sq')])]
         for leaf in leaves:
             picks = rules if not quick else [rules[0]] + rnd.sample(rules[1:], 2)
@@ -351,15 +372,15 @@ def driver_programs(quick, rnd):
                     continue       # reference point of a Bregman distance / first operand: inside dom f
                 if prog['op'] == 'RVec' and kind == 'pspace':
                     continue
-                out.append(((kind, m, n, W), prog))
+                out.append((spd_, prog))
     return out
 
 
 def driver_program(arg):
     spd, f, seed, npts = arg[:4]
     idx = arg[4] if len(arg) > 4 else 0
-    kind, m, n, W = spd
-    sp = fu.sp_desc(kind, m, n, W)
+    kind, m, n, W = spd[:4]
+    sp = fu.sp_desc(*spd)
     N = m * n
     res = _new_res()
     rnd = _rnd(json.dumps(f, sort_keys=True) + kind + str(N), seed)
@@ -838,7 +859,10 @@ def driver_jobs(seed, quick):
 # ------------------------------------------------------------------ check
 def run(ctx):
     quick = ctx.tier == 'quick'
-    ctx.rule = ('functional programs of the bounded FuncMachine (depth <= 1 on every leaf, 2 on a core; 6 space kinds) x lattice '
+    ctx.rule = ('functional programs of the bounded FuncMachine (depth <= 1 on every leaf, 2 on a core; 6 space kinds + weighted '
+                'power spaces with array / constant / below-one component weights; FunctionalQuadraticPerturb over {coefficient 0 / >0} '
+                'x {linear term absent / explicit zero / nonzero} x {constant 0 / !=0}, Bregman distances with a nonzero and with the '
+                'zero sub-gradient) x lattice '
                 'points (x, y): Fenchel-Young pairs, equality pairs (y in subdiff f(x) by TLC, and y = f.gradient(x)), '
                 'biconjugate values, Moreau pairs of proximals; distinct = hash of (program, space, relation, points); '
                 'non-trivial = equality pair or f(x) + f*(y) finite and non-zero / certified prox differs from x')
@@ -847,12 +871,19 @@ def run(ctx):
         'where no witness exists only the inequality and the relations between observed numbers are checked',
         'equality clauses use relative slack 1e-9 on observed floats and exact comparison after snapping in TLC',
         'KL-type values are irrational: quantised relations only',
+        'on a weighted power space the catalogue-pair law GroupL1Norm <-> IndicatorGroupL1UnitBall is stated for the point-wise '
+        'exponent 2 only: with the documented weighted point-wise 1- / max-norms the exponent pairs 1 <-> inf are not conjugate '
+        '(refuted by TLC; the real classes are compared with the witness-search conjugate)',
         'a functional whose convex_conj is the default object (not evaluable) takes part in the Moreau relation only']
     import time
     t0 = time.time()
     jobs, exports = tlc_jobs(ctx, quick)
     results = fu.run_jobs_allow(ctx, jobs)
     stage = {'tlc_model_export': round(time.time() - t0, 1)}
+    for name, res in results.items():
+        # the pair laws are the INIT predicate of the pairs model: a false law leaves no initial state (TLC: 0 states)
+        if name.startswith('pairs-') and not res.generated:
+            raise MachineryError('catalogue pair laws refuted by TLC on %s (no initial state)' % name)
     design = set()
     for name, res in results.items():
         if name.startswith('impl-'):
